@@ -559,8 +559,13 @@ PROPS["C04"] = {
              "same-length same-total descriptor -> A reader must return an error); a case is a history; non-trivial = the "
              "expected record differs from the written one (forward/downgrade) or a refusal; distinct by hash"),
     "trusted_base": HGEN_TB + ["hgenlib.extendDump / restrictDump: structural maps between dumps of the two schema versions"],
-    "assumptions": ["the record-level statement (ForwardStatement: decodeStream B on an A stream = A's records extended with "
-                    "defaults) and everything about the Go writer's downgrade are NOT proved; interoperability is decided per pair by "
+    "assumptions": ["the record-level forward statement is proved for schemas that are Closed (every type name mentioned is defined) and "
+                    "DictInj (no two structs share a struct dictionary) - both hold for every schema the idl parser and stefc accept "
+                    "(references resolve: C12 parse_ok_wf; a struct's dictionary must carry the struct's name: stefc validate.go) but "
+                    "that implication is not itself a Lean theorem (different schema types); without them the statement is FALSE "
+                    "(forward_needs_dictInj, forward_needs_closed: two kernel-checked counterexamples at the level of the "
+                    "specification decoder, not reachable from IDL-generated schemas)",
+                    "everything about the Go WRITER's downgrade (keepFieldMask) is not proved; that direction is decided per pair by "
                     "the cross-package runs with the Lean decoder as oracle",
                     "init_with_override is a theorem about the Lean specification decoder's traversal (Spec.mkNode); that the "
                     "generated Init of the Go packages performs this traversal is tied by the runs (column layout agreement on "
@@ -571,7 +576,13 @@ PROPS["C04"] = {
                    "the descriptor exactly), init_mono (same under any descriptor A accepts), own_descriptor_exact, "
                    "accepted_counts_within_own (a descriptor with more fields than the reader knows for any visited struct is "
                    "refused), refuse_root_partial, plus the one-step theorems (fetch_consumes, refuse, fetch_again, fetch_twice, "
-                   "fetch_own). NOT proved: the record level (ForwardStatement, stated in full) and the writer's downgrade; they are evaluated on code generated for both versions, both directions, with the "
+                   "fetch_own). RECORD LEVEL (forward direction): forward_records - for every A <= B with A Closed and DictInj, every "
+                   "stream that the A decoder reads without error under ANY descriptor it accepts is read by the B decoder without "
+                   "error to the same number of records, the same root masks and, record by record, A's value extended by B-only "
+                   "fields (simulation of decodeNode / the list decoders / decodeRecords / the frame loop with restart flags / "
+                   "decodeStream over a typed relation KRel, Proofs/Forward*.lean); the unrestricted ForwardStatement is proved "
+                   "FALSE (forwardStatement_false) with the two counterexamples that show why each hypothesis is needed. NOT proved: "
+                   "the writer's downgrade; it is evaluated on code generated for both versions with the "
                    "Lean decoder as independent oracle. The two defects this found (downgrade-presence-overflow, "
                    "too-new-descriptor-accepted-via-multimap-key) are repaired in /repo (891ea3b, 6e4a662) and tracked as fixed."),
 }
